@@ -122,6 +122,11 @@ func (m *SigningProposalFSM) actionPartialSignConfirmationReceived(inEvent fsm.E
 		return
 	}
 
+	if request.BatchID != m.payload.SigningProposalPayload.BatchID {
+		err = fmt.Errorf("{BatchID} = {\"%s\"} does not match the batch being signed", request.BatchID)
+		return
+	}
+
 	if !m.payload.SigningQuorumExists(request.ParticipantId) {
 		err = errors.New("{ParticipantId} not exist in quorum")
 		return
